@@ -2,10 +2,10 @@
     ONLY theorem statements (each closed by [exact <lemma of proofs/>]), [Check] pins, [Print Assumptions].
     Doc-comment part: theorems about [DocComments.extract_doc_comments] (hand model of hover.rs
     extract_doc_comments with the hand-written prev_token walk of the repair e8de1c3) FOR ALL TREES AND RANGES. *)
-From Coq Require Import List NArith Bool.
+From Coq Require Import List NArith Bool String.
 From TG.Gen Require Import GenTokens.
-From TG.Model Require Import Chars Tree TreeNav DocComments.
-From TG.Proofs Require Import TreeNavProofs DocProofs.
+From TG.Model Require Import Chars Tree TreeNav DocComments SymbolMap Outline.
+From TG.Proofs Require Import TreeNavProofs DocProofs OutlineProofs.
 Import ListNotations.
 Open Scope N_scope.
 
@@ -104,8 +104,156 @@ Definition ex_d25 : tree :=
                   Node S_RecordBody [Node S_ParentClassList []; Node S_Body [Tok S_Semi [59]]]]]].
 Example C19_doc_example : extract_doc_comments ex_d25 23 26 = DocSome [100;111;99].
 Proof. vm_compute. reflexivity. Qed.
-Example C19_doc_example_decl : exists d, decl_first_token ex_d25 23 26 = Some d /\ length (leaves_before d) = 6%nat.
+Example C19_doc_example_decl : exists d, decl_first_token ex_d25 23 26 = Some d /\ List.length (leaves_before d) = 6%nat.
 Proof. eexists. split; vm_compute; reflexivity. Qed.
 Example C19_doc_rowan_prev_token_refuted :
   extract_doc_comments_rowan ex_d25 23 26 = DocNone /\ extract_doc_comments ex_d25 23 26 <> DocNone.
 Proof. split; vm_compute; [reflexivity|discriminate]. Qed.
+
+(** ================= Hover signature and inlay hints: theorems about the handler models of Outline.v over the
+    symbol-map state machine (every state; the check replays the real op log into it) ================= *)
+
+(** Hover describes the very symbol go-to-definition jumps to: the same [find_symbol_at] result, its define_loc,
+    and a signature computed from that symbol. *)
+Theorem C19_hover_same_symbol : forall S f p sig loc,
+  extract_symbol_signature S f p = SOk (Some (sig, loc)) ->
+  exists s e, find_symbol_at S f p = SOk (Some (s, e)) /\
+              goto_definition S f p = SOk (Some loc) /\ loc = e_def e /\ signature S s e = SOk sig.
+Proof. exact hover_same_symbol. Qed.
+Check C19_hover_same_symbol : forall S f p sig loc,
+  extract_symbol_signature S f p = SOk (Some (sig, loc)) ->
+  exists s e, find_symbol_at S f p = SOk (Some (s, e)) /\
+              goto_definition S f p = SOk (Some loc) /\ loc = e_def e /\ signature S s e = SOk sig.
+Print Assumptions C19_hover_same_symbol.
+
+(** hover answers exactly where go-to-definition answers *)
+Theorem C19_hover_iff_definition : forall S f p,
+  (extract_symbol_signature S f p = SOk None <-> goto_definition S f p = SOk None) /\
+  (forall loc, goto_definition S f p = SOk (Some loc) ->
+               (exists sig, extract_symbol_signature S f p = SOk (Some (sig, loc))) \/
+               (exists err, extract_symbol_signature S f p = SErr err)).
+Proof. exact hover_iff_definition. Qed.
+Check C19_hover_iff_definition : forall S f p,
+  (extract_symbol_signature S f p = SOk None <-> goto_definition S f p = SOk None) /\
+  (forall loc, goto_definition S f p = SOk (Some loc) ->
+               (exists sig, extract_symbol_signature S f p = SOk (Some (sig, loc))) \/
+               (exists err, extract_symbol_signature S f p = SErr err)).
+Print Assumptions C19_hover_iff_definition.
+
+(** the signature shows kind word / name / declared type ([sig_spec], proofs/OutlineProofs.v):
+    `class N<T a, ..>`, `def N`, `T n` (template argument, variable, defset), `T Parent::n` (field), `multiclass N`, `defm N` *)
+Theorem C19_signature : forall S s e sig, signature S s e = SOk sig -> sig_spec S s e sig.
+Proof. exact signature_shows. Qed.
+Check C19_signature : forall S s e sig, signature S s e = SOk sig -> sig_spec S s e sig.
+Print Assumptions C19_signature.
+
+(** the documentation shown with it is [doc_spec] of the tokens above the DEFINITION, in the definition's file *)
+Theorem C19_hover_doc : forall S trees f p sig doc, hover S trees f p = SOk (Some (sig, doc)) ->
+  exists loc, extract_symbol_signature S f p = SOk (Some (sig, loc)) /\
+    doc = match trees (fr_file loc) with
+          | Some t => match decl_first_token t (fr_lo loc) (fr_hi loc) with
+                      | Some d => doc_spec (leaves_before d)
+                      | None => DocNone
+                      end
+          | None => DocNone
+          end.
+Proof. exact hover_doc. Qed.
+Check C19_hover_doc : forall S trees f p sig doc, hover S trees f p = SOk (Some (sig, doc)) ->
+  exists loc, extract_symbol_signature S f p = SOk (Some (sig, loc)) /\
+    doc = match trees (fr_file loc) with
+          | Some t => match decl_first_token t (fr_lo loc) (fr_hi loc) with
+                      | Some d => doc_spec (leaves_before d)
+                      | None => DocNone
+                      end
+          | None => DocNone
+          end.
+Print Assumptions C19_hover_doc.
+
+(** Only hints inside the requested range are returned -- every state, every tree, every range (bounds inclusive,
+    as TextRange::contains_inclusive). *)
+Theorem C19_inlay_range : forall S trees loc hs, inlay_hint S trees loc = SOk (Some hs) ->
+  Forall (fun h => fr_lo loc <= h_pos h /\ h_pos h <= fr_hi loc) hs.
+Proof. exact inlay_range. Qed.
+Check C19_inlay_range : forall S trees loc hs, inlay_hint S trees loc = SOk (Some hs) ->
+  Forall (fun h => fr_lo loc <= h_pos h /\ h_pos h <= fr_hi loc) hs.
+Print Assumptions C19_inlay_range.
+
+(** every hint belongs to a symbol occurrence that overlaps the requested range *)
+Theorem C19_inlay_from_symbols : forall S trees loc hs h, inlay_hint S trees loc = SOk (Some hs) -> In h hs ->
+  exists t l x xs, trees (fr_file loc) = Some t /\ iter_symbols_in_range S loc = SOk (Some l) /\
+                   In x l /\ hints_of_symbol S t x = SOk xs /\ In h xs.
+Proof. exact inlay_from_symbols. Qed.
+Check C19_inlay_from_symbols : forall S trees loc hs h, inlay_hint S trees loc = SOk (Some hs) -> In h hs ->
+  exists t l x xs, trees (fr_file loc) = Some t /\ iter_symbols_in_range S loc = SOk (Some l) /\
+                   In x l /\ hints_of_symbol S t x = SOk xs /\ In h xs.
+Print Assumptions C19_inlay_from_symbols.
+
+(** Positional argument i is labelled with template parameter i's name, at the argument's first character: the hints of
+    a class reference are the zip of the starts of the maximal positional prefix of its argument list with the names of
+    the class's template arguments in declaration order ... *)
+Theorem C19_inlay_args : forall S t targs lo hi hs, inlay_hint_class S t targs lo hi = SOk hs ->
+  (class_arg_list t lo hi = None /\ hs = []) \/
+  exists al names rest,
+    class_arg_list t lo hi = Some al /\
+    Forall2 (fun id n => exists a, get_entry S (KTemplateArg, id) = Some a /\ n = e_name a) (amap_values targs) names /\
+    child_node_cursors is_arg_value al =
+      take_while (fun c => sk_eqb (kind_of (fst c)) S_PositionalArgValue) (child_node_cursors is_arg_value al) ++ rest /\
+    match rest with [] => True | x :: _ => sk_eqb (kind_of (fst x)) S_PositionalArgValue = false end /\
+    hs = zip_hints (map cur_offset (take_while (fun c => sk_eqb (kind_of (fst c)) S_PositionalArgValue)
+                                               (child_node_cursors is_arg_value al))) names.
+Proof. exact inlay_class_args. Qed.
+Check C19_inlay_args : forall S t targs lo hi hs, inlay_hint_class S t targs lo hi = SOk hs ->
+  (class_arg_list t lo hi = None /\ hs = []) \/
+  exists al names rest,
+    class_arg_list t lo hi = Some al /\
+    Forall2 (fun id n => exists a, get_entry S (KTemplateArg, id) = Some a /\ n = e_name a) (amap_values targs) names /\
+    child_node_cursors is_arg_value al =
+      take_while (fun c => sk_eqb (kind_of (fst c)) S_PositionalArgValue) (child_node_cursors is_arg_value al) ++ rest /\
+    match rest with [] => True | x :: _ => sk_eqb (kind_of (fst x)) S_PositionalArgValue = false end /\
+    hs = zip_hints (map cur_offset (take_while (fun c => sk_eqb (kind_of (fst c)) S_PositionalArgValue)
+                                               (child_node_cursors is_arg_value al))) names.
+Print Assumptions C19_inlay_args.
+
+(** ... where the i-th element of a zip is (i-th start, i-th name ++ ":"), and there are min(#args, #params) of them *)
+Theorem C19_inlay_zip : forall starts names i h,
+  nth_error (zip_hints starts names) i = Some h <->
+  exists p n, nth_error starts i = Some p /\ nth_error names i = Some n /\ h = mkHint p (n ++ s2n ":") HKTemplateArg.
+Proof. exact zip_hints_nth. Qed.
+Check C19_inlay_zip : forall starts names i h,
+  nth_error (zip_hints starts names) i = Some h <->
+  exists p n, nth_error starts i = Some p /\ nth_error names i = Some n /\ h = mkHint p (n ++ s2n ":") HKTemplateArg.
+Print Assumptions C19_inlay_zip.
+
+Theorem C19_inlay_zip_length : forall starts names,
+  List.length (zip_hints starts names) = Nat.min (List.length starts) (List.length names).
+Proof. exact zip_hints_length. Qed.
+Check C19_inlay_zip_length : forall starts names,
+  List.length (zip_hints starts names) = Nat.min (List.length starts) (List.length names).
+Print Assumptions C19_inlay_zip_length.
+
+(** A field override is labelled with the field's declared type, right after the field name (the end of the identifier) *)
+Theorem C19_inlay_let : forall t typ lo hi h, In h (inlay_hint_record_field t typ lo hi) ->
+  h = mkHint hi (s2n ":" ++ typ) HKFieldLet /\ inlay_hint_record_field t typ lo hi = [h] /\
+  exists idc fl, identifier_node t lo hi false = Some idc /\ parent idc = Some fl /\ kind_of (fst fl) = S_FieldLet.
+Proof. exact inlay_field_let. Qed.
+Check C19_inlay_let : forall t typ lo hi h, In h (inlay_hint_record_field t typ lo hi) ->
+  h = mkHint hi (s2n ":" ++ typ) HKFieldLet /\ inlay_hint_record_field t typ lo hi = [h] /\
+  exists idc fl, identifier_node t lo hi false = Some idc /\ parent idc = Some fl /\ kind_of (fst fl) = S_FieldLet.
+Print Assumptions C19_inlay_let.
+
+(** Non-vacuity: the state of `class A<int x> {..}` plus a reference `A<1>` in file 1 (tree below): hover at the
+    class name, hints for the whole reference, and the D18 shape: requesting only the identifier [0,1] returns nothing. *)
+Definition ex_ops19 : list op :=
+  [ OpAddRecord (s2n "A") RKClass (mkFR 0 6 7) true 0;
+    OpAddTemplateArg (s2n "x") (s2n "int") (mkFR 0 12 13) 0; OpRecordMut 0; OpRecAddTemplateArg (s2n "x") 0;
+    OpAddReference (KRecord, 0) (mkFR 1 0 1) ].
+Definition ex_ref_tree : tree :=
+  Node S_SourceFile [Node S_ClassRef [Node S_Identifier [Tok S_Id [65]]; Tok S_Less [60];
+     Node S_ArgValueList [Node S_PositionalArgValue [Node S_Value [Tok S_IntVal [49]]]]; Tok S_Greater [62]]].
+Definition ex_trees (f : fileid) : option tree := if f =? 1 then Some ex_ref_tree else None.
+Example C19_hover_inlay_example : exists S, run_ops ex_ops19 = SOk S /\
+  extract_symbol_signature S 1 0 = SOk (Some (s2n "class A<int x>", mkFR 0 6 7)) /\
+  goto_definition S 1 0 = SOk (Some (mkFR 0 6 7)) /\
+  inlay_hint S ex_trees (mkFR 1 0 4) = SOk (Some [mkHint 2 (s2n "x:") HKTemplateArg]) /\
+  inlay_hint S ex_trees (mkFR 1 0 1) = SOk (Some []).
+Proof. eexists. split; [vm_compute; reflexivity|]. repeat split; vm_compute; reflexivity. Qed.
